@@ -28,7 +28,12 @@ oracle          evaluated on the implementation only:
                 (d) passthrough off: the source nodes made for tool inputs carry the types
                     the tools give those inputs when typed on their own;
                 (e) only typing errors are raised on well-formed workflows; a workflow
-                    without a unique final application is rejected with ValueError.
+                    without a unique final application is rejected with ValueError;
+                (f) each source gets the most general type acceptable to all of its uses: where
+                    Workflow.source_types departs from its specification (computed by the
+                    harness from the workflow: no type when a use is not annotated, else the
+                    least annotated type) and the inlined expression type-checks with the
+                    specified source types, the workflow must build and carry the same types.
 """
 from __future__ import annotations
 
@@ -920,7 +925,7 @@ def inline_text(lang: Lang, wf, r, srcnum: dict) -> str:
     return go(r)
 
 
-def inline_obs(lang: Lang, wf, typed_sources: bool):
+def inline_obs(lang: Lang, wf, typed_sources, override=None, open_sources=()):
     """graph of add_expr on the inlined expression (tree unfolding; sources shared).
     typed_sources: give the sources the types Workflow.source_types derives (the
     documented whole-workflow step), else leave them to inference alone"""
@@ -939,6 +944,11 @@ def inline_obs(lang: Lang, wf, typed_sources: bool):
             srcs = [Source(st[s]) for s in wf["sources"]]
         else:
             srcs = [Source() for _ in wf["sources"]]
+        for i, q in enumerate(wf["sources"]):
+            if override and q in override:          # a harness type for this source
+                srcs[i] = Source(lang.pt(override[q]))
+            elif q in open_sources:
+                srcs[i] = Source()
         e = lang.language.parse_expr(text, *srcs)
         e.fix()
         g = new_graph(lang, True)
@@ -1154,6 +1164,45 @@ def source_types_obs(lang: Lang, wf, app_order, source_order=None):
         return {"error": type(e).__name__}
 
 
+def spec_source_types(lang: Lang, wf):
+    """what Workflow.source_types has to yield (C12_source_types_spec), computed from the
+    workflow description: per source None (left to inference) if some input position fed by
+    it carries no annotation, else the least of the annotated types; None altogether when
+    annotations are not comparable"""
+    out = {q: [] for q in wf["sources"]}
+    for a in wf["apps"]:
+        per = {k: [] for k in range(len(a["ins"]))}
+
+        def walk(t):
+            if t[0] == "in":
+                if t[2] is not None:
+                    per[t[1]].append(t[2])
+            elif t[0] == "ap":
+                for x in t[2]:
+                    walk(x)
+        walk(a["term"])
+        for k, q in enumerate(a["ins"]):
+            if q in out:
+                m = None
+                for x in per[k]:
+                    m = x if m is None else lang.meet(m, x)
+                    if m is None:
+                        return None
+                out[q].append(m)
+    res = {}
+    for q, ts in out.items():
+        if not ts or any(t is None for t in ts):
+            res[q] = None
+            continue
+        m = ts[0]
+        for x in ts[1:]:
+            m = lang.meet(m, x)
+            if m is None:
+                return None
+        res[q] = m
+    return res
+
+
 def uses_of(wf) -> dict:
     """per source: list of annotations (None = not annotated) in listing order"""
     out = {s: [] for s in wf["sources"]}
@@ -1241,6 +1290,14 @@ def fixed_cases():
     out.append(("source_types_witness", l2, {"sources": ["s0"], "apps": [
         {"out": "t0", "term": ap("m", I(0, "T0")), "ins": ["s0"]},
         {"out": "t1", "term": ap("n", I(0), I(1)), "ins": ["s0", "t0"]}]}))
+    # a source narrowed by an unannotated use through a polymorphic operator, annotated more
+    # generally elsewhere:  f 1 on [s0];  g (1 : T0) 2 on [s0, t0]  with g : T0 ** T1 ** T2
+    l2b = Lang({"T0": None, "T1": "T0", "T2": None}, False, [
+        dict(kind="id", name="f", params=["x"], res="x", bound="T0"),
+        mono("g", ["T0", "T1"], "T2")], [])
+    out.append(("narrowed_by_unannotated_use", l2b, {"sources": ["s0"], "apps": [
+        {"out": "t0", "term": ap("f", I(0)), "ins": ["s0"]},
+        {"out": "t1", "term": ap("g", I(0, "T0"), I(1)), "ins": ["s0", "t0"]}]}))
     # test_disabling_of_output_passthrough / test_inter_tool_types
     l3 = Lang({"T0": None, "T1": "T0", "T2": "T1"}, False, [
         dict(kind="id", name="f", params=["x"], res="x", bound="T0"),
@@ -1352,11 +1409,47 @@ def check_case(rep: C.Report, rng, case: Case, tier, acc: Counter, idx: int, all
             what="Workflow.source_types depends on the listing order of the tool applications",
             order_a=orders[0][0], result_a=st0, order_b=ao, result_b=st,
             sources_with_annotated_and_unannotated_uses=mixed), has_input=True, signature=sig)
+    spec_st = spec_source_types(lang, wf)
+    spec_over, spec_open, st_differs = {}, set(), False
+    if spec_st is not None and "error" not in st0:
+        for q, t in spec_st.items():
+            impl_t = st0.get(q, "_")
+            impl_open = impl_t == "_" or impl_t.startswith("τ")
+            if t is None:
+                spec_open.add(q)
+                st_differs |= not impl_open
+            else:
+                spec_over[q] = t
+                st_differs |= impl_open or impl_t != lang.ty_text(t)
     for pt in (True, False):
         tag = "pass" if pt else "nopass"
         base = run_wf(lang, wf, "listed", pt, orders[0][0], orders[0][1])
         acc[f"outcome_{tag}_{'ok' if base.error is None else base.error[0]}"] += 1
         case.model_jobs.append((pt, orders[0][0], orders[0][1], base))
+        # --- (f) each source gets the most general type acceptable to all of its uses: when
+        # Workflow.source_types departs from its specification (no type for a source with a use
+        # that is not annotated, else the least annotated type), the inlined expression with the
+        # specified source types decides what the workflow must give
+        if pt and case.dom and spec_st is not None and st_differs:
+            so_, text = inline_obs(lang, wf, True, override=spec_over, open_sources=spec_open)
+            acc["source_spec_departures_checked"] += 1
+            bad = None
+            if so_.error is None and base.error is not None:
+                bad = "add_workflow rejects the workflow although"
+            elif so_.error is None and base.error is None:
+                shared = case.shape["shared_intermediates"] > 0
+                same = unfolding_equal(base, so_) if shared else iso(base, so_, with_map=False)
+                if not same:
+                    bad = "the workflow graph carries other types than the inlined expression when"
+            if bad:
+                acc["source_spec_violations"] += 1
+                rep.violation(f"sources_{idx}", case.payload(kind="oracle",
+                    what=f"{bad} every source is given the most general type acceptable to all of its "
+                         "uses (none where a use is not annotated, else the least annotated type): the "
+                         "inlined expression type-checks with those source types",
+                    source_types_of_the_implementation=st0, source_types_expected=spec_st,
+                    inlined_expression=text, workflow_graph=listing(base), inlined_graph=listing(so_)),
+                    has_input=True)
         # --- (c) listing orders and descriptions
         for j, (ao, so) in enumerate(orders[1:], start=1):
             o = run_wf(lang, wf, "listed", pt, ao, so)
@@ -1723,7 +1816,8 @@ def main(tier: str, seed: int, replay: str | None = None) -> int:
             "outcomes": {k: v for k, v in acc.items() if k.startswith("outcome_")},
             "oracles": {k: acc[k] for k in (
                 "inline_compared_isomorphic", "inline_compared_merged", "inline_compared_failures",
-                "inline_violations", "unexpected_errors",
+                "inline_violations", "source_spec_departures_checked", "source_spec_violations",
+                "unexpected_errors",
                 "structure_violations", "nopass_input_sources_checked", "nopass_type_check_skipped",
                 "nopass_type_violations", "order_dependent_graphs", "description_dependent_graphs",
                 "source_types_order_dependent", "source_types_differs_on_incomparable_annotations",
